@@ -1,11 +1,7 @@
 SPECIFICATION Spec
 CONSTANTS Cases <- BloomCases
           GF = 2
-          FPKeys = {1, 2, 3, 4, 5, 6}
-          MCN = 1
-          MCA = 1
-          MCStops = {0}
-          MCTrks = {"map"}
+          FPKeys = {1, 2, 3, 4, 5}
 INVARIANTS NoFalseNegative ChainShape CountRight
 PROPERTY ChainMonotone
 CONSTRAINT BloomBound
